@@ -21,9 +21,42 @@ def zsum(b):
 
 
 # ---------------------------------------------------------------- SDR records
-def tl_ascii(s):
-    s = s.encode('ascii')
-    return bytes([0xc0 | len(s)]) + s
+def pack6(s):
+    """6-bit packed ASCII (0x20..0x5f), 4 characters in 3 bytes, least significant first"""
+    v = [ord(c) - 0x20 for c in s]
+    out = bytearray()
+    for i in range(0, len(v), 4):
+        g = v[i:i + 4] + [0] * (4 - len(v[i:i + 4]))
+        w = g[0] | g[1] << 6 | g[2] << 12 | g[3] << 18
+        out += bytes([w & 0xff, (w >> 8) & 0xff, (w >> 16) & 0xff])
+    return bytes(out)
+
+
+def pack_bcd(s):
+    """BCD plus: 0-9, ' ', '-', '.' two per byte, first character in the high nibble"""
+    m = {' ': 0xa, '-': 0xb, '.': 0xc}
+    d = [int(c) if c.isdigit() else m[c] for c in s]
+    if len(d) % 2:
+        d.append(0xa)
+    return bytes(d[i] << 4 | d[i + 1] for i in range(0, len(d), 2))
+
+
+def tl(s, enc='ascii'):
+    """type/length byte + payload; enc: ascii | bcd (digits, blank, dash, dot) | 6bit (upper case) | bin"""
+    if enc == 'bcd':
+        b = pack_bcd(''.join(c if c in '0123456789 -.' else '.' for c in s) or '0')
+        return bytes([0x40 | len(b)]) + b
+    if enc == '6bit':
+        t = ''.join(c if 0x20 <= ord(c) <= 0x5f else '_' for c in s.upper())
+        t += ' ' * ((-len(t)) % 4)            # whole groups only
+        b = pack6(t)
+        return bytes([0x80 | len(b)]) + b
+    b = s.encode('latin-1')
+    return bytes([(0x00 if enc == 'bin' else 0xc0) | len(b)]) + b
+
+
+def tl_ascii(s, enc='ascii'):
+    return tl(s, enc)
 
 
 def sdr_header(rid, typ, body):
@@ -31,7 +64,7 @@ def sdr_header(rid, typ, body):
 
 
 def sdr_full(rid, number, name, lun=0, entity=(3, 1), thresholds=(250, 240, 230, 5, 10, 20),
-             m=1, b=0, k1=0, k2=0, fmt=0):
+             m=1, b=0, k1=0, k2=0, fmt=0, enc='ascii'):
     body = bytes([0x20, lun & 3, number]) + bytes(entity)          # key + entity
     body += bytes([0x7f, 0x68, 0x01, 0x01])                        # init, caps, type=temp, threshold
     body += le(0x7a95, 2) + le(0x7a95, 2) + le(0x3f3f, 2)          # masks
@@ -43,27 +76,34 @@ def sdr_full(rid, number, name, lun=0, entity=(3, 1), thresholds=(250, 240, 230,
     body += bytes([0x07, 40, 80, 10, 255, 0])                      # analog flags, nominal, max, min, smax, smin
     body += bytes(thresholds)                                      # unr ucr unc lnr lcr lnc
     body += bytes([2, 2, 0, 0, 0])                                 # hysteresis, reserved, oem
-    body += tl_ascii(name)
+    body += tl_ascii(name, enc)
     return sdr_header(rid, 0x01, body)
 
 
-def sdr_compact(rid, number, name, lun=0, entity=(7, 1)):
+def sdr_compact(rid, number, name, lun=0, entity=(7, 1), enc='ascii'):
     body = bytes([0x20, lun & 3, number]) + bytes(entity)
     body += bytes([0x67, 0x40, 0xf0, 0x6f])                        # init, caps, type=hot swap, sensor specific
     body += le(0x00ff, 2) + le(0x0000, 2) + le(0x00ff, 2)
     body += bytes([0xc0, 0x00, 0x00])                              # units
     body += le(0, 2) + bytes([0, 0]) + bytes(3) + bytes([0])       # sharing, hysteresis, reserved, oem
-    body += tl_ascii(name)
+    body += tl_ascii(name, enc)
     return sdr_header(rid, 0x02, body)
 
 
-def sdr_fru_locator(rid, name, fru_id=0):
-    body = bytes([0x20 << 0, fru_id, 0x80, 0x00, 0x00, 0x10, 0x00, 0xa0, 0x60, 0x00]) + tl_ascii(name)
+def sdr_event_only(rid, number, name, lun=0, entity=(0x20, 1), enc='ascii'):
+    body = bytes([0x20, lun & 3, number]) + bytes(entity)
+    body += bytes([0x12, 0x6f]) + le(0, 2) + bytes([0, 0])          # type, event type, sharing, reserved, oem
+    body += tl_ascii(name, enc)
+    return sdr_header(rid, 0x03, body)
+
+
+def sdr_fru_locator(rid, name, fru_id=0, entity=(0xa0, 0x60), enc='ascii'):
+    body = bytes([0x20 << 0, fru_id, 0x80, 0x00, 0x00, 0x10, 0x00]) + bytes(entity) + bytes([0x00]) + tl_ascii(name, enc)
     return sdr_header(rid, 0x11, body)
 
 
-def sdr_mc_locator(rid, name):
-    body = bytes([0x20, 0x00, 0x00, 0xbf, 0, 0, 0, 0xa0, 0x60, 0x00]) + tl_ascii(name)
+def sdr_mc_locator(rid, name, entity=(0xa0, 0x60), enc='ascii'):
+    body = bytes([0x20, 0x00, 0x00, 0xbf, 0, 0, 0]) + bytes(entity) + bytes([0x00]) + tl_ascii(name, enc)
     return sdr_header(rid, 0x12, body)
 
 
@@ -71,10 +111,43 @@ def sdr_oem(rid, payload=b'\x5a\x3c\x00KONTRON'):
     return sdr_header(rid, 0xc0, payload)
 
 
+def sdr_unknown(rid, typ=0x0a, payload=bytes(range(6))):
+    return sdr_header(rid, typ, payload)
+
+
+def sdr_from(d):
+    """record descriptor (JSON-able dict) -> record bytes"""
+    k = d['k']
+    kw = {x: d[x] for x in ('lun', 'enc') if x in d}
+    if 'entity' in d:
+        kw['entity'] = tuple(d['entity'])
+    if k == 'full':
+        for x in ('m', 'b', 'k1', 'k2', 'fmt'):
+            if x in d:
+                kw[x] = d[x]
+        if 'thresholds' in d:
+            kw['thresholds'] = tuple(d['thresholds'])
+        return sdr_full(d['id'], d['num'], d.get('name', 'S'), **kw)
+    if k == 'compact':
+        return sdr_compact(d['id'], d['num'], d.get('name', 'C'), **kw)
+    if k == 'event':
+        return sdr_event_only(d['id'], d['num'], d.get('name', 'E'), **kw)
+    if k == 'fru':
+        kw.pop('lun', None)
+        return sdr_fru_locator(d['id'], d.get('name', 'FRU'), d.get('fru_id', 0), **kw)
+    if k == 'mc':
+        kw.pop('lun', None)
+        return sdr_mc_locator(d['id'], d.get('name', 'MC'), **kw)
+    if k == 'oem':
+        return sdr_oem(d['id'], bytes.fromhex(d['payload'])) if 'payload' in d else sdr_oem(d['id'])
+    return sdr_unknown(d['id'], d.get('type', 0x0a))
+
+
 # ---------------------------------------------------------------- FRU image
-def fru_tl(s):
-    s = s.encode('ascii')
-    return bytes([0xc0 | len(s)]) + s
+def fru_tl(s, enc='ascii'):
+    if enc == 'ascii' and len(s) == 1:
+        s += ' '                      # 0xC1 is the end-of-fields marker
+    return tl(s, enc)
 
 
 def fru_area(body):
@@ -83,28 +156,48 @@ def fru_area(body):
     return b + bytes([zsum(b)])
 
 
-def fru_image(tag, multirecord=True):
-    chassis = fru_area(bytes([0x17]) + fru_tl('CH-PN-' + tag) + fru_tl('CH-SN-' + tag) + fru_tl('custom') + b'\xc1')
-    board = fru_area(bytes([0x19]) + le(0x123456, 3) + fru_tl('ACME') + fru_tl('Board ' + tag) + fru_tl('B-SN-' + tag)
-                     + fru_tl('B-PN') + fru_tl('file1') + b'\xc1')
-    product = fru_area(bytes([0x19]) + fru_tl('ACME') + fru_tl('Prod ' + tag) + fru_tl('P-PN') + fru_tl('1.0')
-                       + fru_tl('P-SN-' + tag) + fru_tl('asset') + fru_tl('file2') + fru_tl('extra') + b'\xc1')
+def fru_image(tag, multirecord=True, chassis=True, board=True, product=True, custom=1, enc='ascii', nrec=2):
+    """a well-formed FRU inventory: common header, optional chassis / board / product areas with `custom`
+    custom fields each, `nrec` multirecords (when multirecord); serial numbers / part numbers in `enc`"""
+    cust = b''.join(fru_tl('custom%d' % i) for i in range(custom)) + b'\xc1'
+    areas = []
+    if chassis:
+        areas.append(fru_area(bytes([0x17]) + fru_tl('CH-PN-' + tag, enc) + fru_tl('CH-SN-' + tag) + cust))
+    if board:
+        areas.append(fru_area(bytes([0x19]) + le(0x123456, 3) + fru_tl('ACME') + fru_tl('Board ' + tag) + fru_tl('B-SN-' + tag, enc)
+                              + fru_tl('B-PN') + fru_tl('file1') + cust))
+    if product:
+        areas.append(fru_area(bytes([0x19]) + fru_tl('ACME') + fru_tl('Prod ' + tag) + fru_tl('P-PN', enc) + fru_tl('1.0')
+                              + fru_tl('P-SN-' + tag) + fru_tl('asset') + fru_tl('file2') + cust))
     recs = b''
-    if multirecord:
-        for i, (typ, payload) in enumerate([(0xc0, b'\x5a\x31\x00\x16\x00' + bytes(5)), (0x02, bytes(13))]):
-            last = 0x80 if i == 1 else 0
-            h = bytes([typ, 0x02 | last, len(payload), zsum(payload)])
-            recs += h + bytes([zsum(h)]) + payload
+    kinds = [(0xc0, b'\x5a\x31\x00\x16\x00' + bytes(5)), (0x02, bytes(13)), (0x01, bytes(range(24))), (0xd3, b'\x01\x02\x03')]
+    n = nrec if multirecord else 0
+    for i, (typ, payload) in enumerate(kinds[:n]):
+        last = 0x80 if i == n - 1 else 0
+        h = bytes([typ, 0x02 | last, len(payload), zsum(payload)])
+        recs += h + bytes([zsum(h)]) + payload
     off = 8
-    offs = []
-    for a in (chassis, board, product):
-        offs.append(off // 8)
+    offs = {}
+    present = [k for k, on in (('c', chassis), ('b', board), ('p', product)) if on]
+    for k, a in zip(present, areas):
+        offs[k] = off // 8
         off += len(a)
-    mr = off // 8 if multirecord else 0
-    hdr = bytes([1, 0] + offs + [mr, 0])
+    mr = off // 8 if n else 0
+    hdr = bytes([1, 0, offs.get('c', 0), offs.get('b', 0), offs.get('p', 0), mr, 0])
     hdr += bytes([zsum(hdr)])
-    img = hdr + chassis + board + product + recs
+    img = hdr + b''.join(areas) + recs
     return img + bytes((-len(img)) % 8)
+
+
+def sel_from(d):
+    """SEL record descriptor -> 16 bytes.  type 0x02 system event; 0xc0-0xdf OEM timestamped; 0xe0-0xff OEM"""
+    t = d.get('type', 0x02)
+    if t == 0x02:
+        return sel_record(d['id'], 0x02, d.get('ts', 0x5f000000), d.get('gen', 0x20), d.get('stype', 1), d.get('num', 0),
+                          d.get('ev', 1), tuple(d.get('data', (0x50, 0x30, 0x28))))
+    if 0xc0 <= t <= 0xdf:
+        return le(d['id'], 2) + bytes([t]) + le(d.get('ts', 0x5f000000), 4) + le(d.get('mfg', 15000), 3) + bytes(d.get('oem', [1, 2, 3, 4, 5, 6]))
+    return le(d['id'], 2) + bytes([t]) + bytes(d.get('oem', list(range(13))))
 
 
 # ---------------------------------------------------------------- SEL
@@ -149,18 +242,28 @@ class Bmc:
         self.fault = fault
         self.n = 0
         self.resv = 0x100
-        self.sel = [sel_record(1 + i, typ=(0x02, 0x02, 0xc5, 0xe3)[i % 4], num=i) for i in range(s['sel'])]
+        if isinstance(s['sel'], int):
+            self.sel = [sel_record(1 + i, typ=(0x02, 0x02, 0xc5, 0xe3)[i % 4], num=i) for i in range(s['sel'])]
+        else:
+            self.sel = [sel_from(d) for d in s['sel']]
         self.sel_erase = 0
         kinds = {
             'mixed': [sdr_full(1, 1, 'Temp CPU'), sdr_compact(2, 2, 'Hot Swap'), sdr_full(4, 3, 'Temp Board', fmt=2, m=2, b=5, k2=-1),
+                      sdr_full(5, 5, 'Temp LUN2', lun=2), sdr_event_only(6, 6, 'Events', lun=1),
                       sdr_fru_locator(7, 'FRU0'), sdr_mc_locator(8, 'BMC'), sdr_compact(9, 7, 'Version')],
             'sensors': [sdr_full(1, 1, 'Temp CPU'), sdr_compact(2, 2, 'Hot Swap'), sdr_full(4, 3, 'V 12'),
                         sdr_fru_locator(7, 'FRU0'), sdr_mc_locator(8, 'BMC')],
             'oem': [sdr_full(1, 1, 'Temp CPU'), sdr_oem(2), sdr_compact(3, 2, 'Hot Swap')],
             'one': [sdr_full(1, 9, 'Only')],
         }
-        self.sdrs = kinds[s['sdr']]
-        self.frus = {i: fru_image(str(i), multirecord=(i == 0)) for i in range(s['frus'])}
+        self.sdrs = kinds[s['sdr']] if isinstance(s['sdr'], str) else [sdr_from(d) for d in s['sdr']]
+        if isinstance(s['frus'], int):
+            self.frus = {i: fru_image(str(i), multirecord=(i == 0)) for i in range(s['frus'])}
+        else:
+            self.frus = {int(k): fru_image(**{**{'tag': str(k)}, **v}) for k, v in s['frus'].items()}
+        # populated ports: (interface, channel); default: channels 1..4 on interfaces 0 and 1
+        self.ports = set((i, c) for i in (0, 1) for c in (1, 2, 3, 4)) if s.get('ports') is None else \
+            set((p[0], p[1]) for p in s['ports'])
         self.hpm_state = {'blocks': 0, 'bytes': 0}
         self.power_actions = []
 
@@ -189,8 +292,15 @@ class Bmc:
             return b'\xca'
         return b'\x00' + le(nxt, 2) + rec[off:off + cnt]
 
+    def sensors(self):
+        """(owner lun, number) -> record, for the records that have a reading (full, compact)"""
+        return {(r[6] & 3, r[7]): r for r in self.sdrs if r[3] in (1, 2)}
+
     def sensor_numbers(self):
-        return {r[7]: r for r in self.sdrs if r[3] in (1, 2)}
+        return {r[7]: r for r in self.sdrs if r[3] in (1, 2, 3)}
+
+    def sdr_ids(self):
+        return [r[0] | r[1] << 8 for r in self.sdrs]
 
     # -- the device
     def handle(self, netfn, cmd, lun, data, req=None):
@@ -283,11 +393,11 @@ class Bmc:
             if cmd == 0x21 and len(d) == 6:
                 return self.sdr_read(d)
             if cmd == 0x2d and len(d) == 1:
-                sens = self.sensor_numbers()
-                if d[0] not in sens or (sens[d[0]][6] & 3) != lun:
+                sens = self.sensors()
+                if (lun, d[0]) not in sens:          # a sensor answers only on its owner LUN
                     return b'\xcb'
-                if sens[d[0]][3] == 1:
-                    return b'\x00' + bytes([0x20 + d[0], 0xc0, 0xc0 | (d[0] & 1)])
+                if sens[(lun, d[0])][3] == 1:
+                    return b'\x00' + bytes([(0x20 + d[0]) & 0xff, 0xc0, 0xc0 | (d[0] & 1)])
                 return b'\x00' + bytes([0x00, 0xc0, 0x01 << (d[0] & 7), 0x80])
             if cmd == 0x2a and len(d) == 6:
                 return b'\x00' if d[0] in self.sensor_numbers() else b'\xcb'
@@ -300,7 +410,7 @@ class Bmc:
                 return ok + bytes([0x02, 0x05, 0x0a, 10, 15, 20])
             if cmd == 0x0f and len(p) == 1:
                 ch, itf = p[0] & 0x3f, p[0] >> 6
-                if ch == 0 or ch > 4 or itf > 1:
+                if (itf, ch) not in self.ports:
                     return b'\xcc'
                 # link info: channel/interface, flags/type, class/extension, grouping, state
                 return ok + bytes([p[0], 0x21, 0x01 if itf == 0 else 0x00, 0x00, 0x01])
@@ -315,6 +425,8 @@ class Bmc:
             if cmd == 0x2f and len(p) == 2:
                 if not (s['components'] >> p[0]) & 1:
                     return b'\x82'
+                if p[1] in s.get('hpm_missing', []):
+                    return b'\x83'
                 if p[1] == 0:
                     return ok + bytes([0x2d])
                 if p[1] == 1:
